@@ -88,6 +88,18 @@ CHECKS = {
    tech="three TLC-defined input spaces executed under catch_unwind in killable worker processes (source texts from the token alphabet and corpus mutations; the stdlib call matrix; TLC-generated core programs x events); a `panic` record is explained by no action of any trace specification",
    text="Everything the other engines execute is run so that a panic becomes a recorded event instead of killing the check: (1) the 46k source texts of C33 are compiled, all their diagnostics rendered (plain and coloured) and accepted programs run; (2) the 45k call tuples of the C03 matrix (all 200 functions, edge and wrong-typed arguments, literal and runtime-typed) are compiled and run; (3) the TLC-generated programs of the C08/C09/C13/C15 grammars run on every event with hooks on. TraceDiag / TraceCalls / TraceCore have no action that accepts a panic, so each one is a C04 witness naming where it happened.",
    note="trusted: catch_unwind + process isolation see every panic/abort; release-mode build (debug-only overflow checks are not exercised); memory/stack exhaustion out of scope"),
+ "C24": dict(engine="C", cat="exploration", design="6/C24",
+   tech="flat string objects / string lists over a TLC-defined hostile alphabet run through the real encode->parse pairs; TLC evaluates parse(encode(o)) = o on the recorded results and names the circumstance (backslash/newline, delimiter/quote/whitespace)",
+   text="GenLaws.tla defines the key/value alphabet {a, space, \", =, \\, newline, tab, :, ',', e-acute}. Every non-empty string of length <= 2 (thorough 3) plus seeded longer ones is used as key and value of one- and two-field objects, sent through encode_key_value -> parse_key_value with default delimiters and with ':' / ',', through encode_logfmt -> parse_logfmt, and lists of such strings through encode_csv -> parse_csv. TLC checks that the parsed object/list equals the original (same keys, same string values).",
+   note="trusted: the harness' eval job; only string-valued flat objects as the property states"),
+ "C25": dict(engine="C", cat="exploration", design="6/C25",
+   tech="paired conversions run through the real functions; TLC evaluates g(f(x)) = x on the recorded results and checks format_int against an independent long-division radix model written in TLA+ (FnLaws!FormatRadix)",
+   text="format_int/parse_int for bases {2,3,8,10,16,35,36} (thorough: all 2-36) x edge integers (0, +-1, 2^31, 2^53+1, 2^62, MIN, MIN+1, MAX, 10^18) and seeded random i64: the digits must equal FormatRadix (sign + repeated long division of the magnitude's limbs by the base, computed by TLC) and parse_int must restore the limbs; ip_aton/ip_ntoa, ip_pton/ip_ntop (IPv4 and IPv6), ip_to_ipv6/ipv6_to_ipv4; flatten/unflatten and to_entries/from_entries on seeded nested objects without separators in keys or empty containers; to_unix_timestamp/from_unix_timestamp for every unit and format_timestamp/parse_timestamp for full-precision formats on instants across the representable range (relational only).",
+   note="trusted: the harness' eval job; timestamps are compared relationally (no calendar model)"),
+ "C28": dict(engine="C", cat="exploration", design="6/C28",
+   tech="law instances over TLC-defined Unicode alphabets evaluated by the real functions; each law is a TLA+ predicate over code-point sequences / small collections (FnLaws.tla)",
+   text="Strings over {a, B, sharp-s, dotted-I, space, tab, newline, ',', e-acute, emoji, nbsp, em-space, _, -} up to length 2 (thorough 3) plus seeded longer ones; arrays with duplicates, nulls and empties; objects with multi-byte, spaced and empty keys. Laws checked by TLC on the real results: idempotence of upcase/downcase/camelcase/snakecase/kebabcase/pascalcase/screamingsnakecase/strip_whitespace; strip_whitespace = input minus maximal leading/trailing White_Space runs; join(split(s,d),d) = s; starts_with/ends_with/contains <=> prefix/suffix/infix of the code-point sequences; truncate length bound, prefix property and identity for short inputs; strlen = number of scalar values; slice = positional sub-sequence incl. negative bounds; unique = first occurrences in order; compact removes exactly null/empty items; keys/values/length agree with the object; merge(a,b) has b's values on shared keys and the union of keys.",
+   note="trusted: the harness' code-point extraction (Rust chars()); White_Space restricted to the alphabet's characters"),
 }
 
 NA = {
